@@ -1,4 +1,5 @@
 import AtreeProofs.Trans.MapElem
+import AtreeProofs.Trans.MapElemOn
 /-
   Unit B, slab part: the GENERATED `storeSlab`, `getMapSlab`, `MapDataSlab.Set / Remove` and
   `externalCollisionGroup.Get / Set / Remove` (`AtreeModel/Gen/TransMapElem.lean`) against the model
@@ -10,17 +11,31 @@ open Atree Atree.Gen.TransElem
 section
 variable {α X : Type} (o : ElemsOps α) (cfg : MCfg) (k : MKey) (v : Elem) (env : Env α SV SW X MKey Unit Ctx GE)
 
-theorem mei_storeSlab_data (hE : EnvB o cfg k v env) (m : MapDataSlab α X) (c : Ctx) :
+/-- `mei_storeSlab_data` over the relativised environment `EnvBOn` -/
+theorem mei_storeSlab_data_on {Qg Qs Qr : α → Nat → Ctx → Prop} {Qn : Nat → SElem → Prop}
+    (hE : EnvBOn o cfg k v env Qg Qs Qr Qn) (m : MapDataSlab α X) (c : Ctx) :
     storeSlab env c (.dataSlab m) = some (none, c.emit (.store m.header.slabID)) := by
   simp only [storeSlab, MapSlab_SlabID, MapDataSlab_SlabID, hE.store, Option.isNone_none, Bool.not_true,
     Bool.false_eq_true, if_false]
 
+theorem mei_storeSlab_data (hE : EnvB o cfg k v env) (m : MapDataSlab α X) (c : Ctx) :
+    storeSlab env c (.dataSlab m) = some (none, c.emit (.store m.header.slabID)) :=
+  mei_storeSlab_data_on o cfg k v env hE.toOn m c
+
 set_option linter.unusedVariables false in
-theorem mei_getMapSlab_found (hE : EnvB o cfg k v env) (c : Ctx) (id : SlabID) (m : MapDataSlab α X)
+/-- `mei_getMapSlab_found` over the relativised environment `EnvBOn` -/
+theorem mei_getMapSlab_found_on {Qg Qs Qr : α → Nat → Ctx → Prop} {Qn : Nat → SElem → Prop}
+    (hE : EnvBOn o cfg k v env Qg Qs Qr Qn) (c : Ctx) (id : SlabID) (m : MapDataSlab α X)
     (hret : env.SlabStorage_Retrieve c id = (.dataSlab m, true, none, c)) :
     getMapSlab env c id = (.dataSlab m, none, c) := by
   simp only [getMapSlab, hret, Option.isNone_none, Bool.not_true, Bool.false_eq_true, if_false, MapSlab.isNil,
     Bool.not_false]
+
+set_option linter.unusedVariables false in
+theorem mei_getMapSlab_found (hE : EnvB o cfg k v env) (c : Ctx) (id : SlabID) (m : MapDataSlab α X)
+    (hret : env.SlabStorage_Retrieve c id = (.dataSlab m, true, none, c)) :
+    getMapSlab env c id = (.dataSlab m, none, c) :=
+  mei_getMapSlab_found_on o cfg k v env hE.toOn c id m hret
 
 /-- `getPrefixSize` as a number -/
 def mei_prefix (m : MapDataSlab α X) : Nat :=
@@ -29,6 +44,26 @@ def mei_prefix (m : MapDataSlab α X) : Nat :=
 theorem mei_getPrefixSize (m : MapDataSlab α X) : MapDataSlab_getPrefixSize env m = u32 (mei_prefix m) := by
   unfold MapDataSlab_getPrefixSize mei_prefix
   cases m.inlined <;> cases m.extraData <;> rfl
+
+/-- `MapDataSlab_Set_eq` over the relativised environment `EnvBOn` -/
+theorem MapDataSlab_Set_eq_on {Qg Qs Qr : α → Nat → Ctx → Prop} {Qn : Nat → SElem → Prop}
+    (hE : EnvBOn o cfg k v env Qg Qs Qr Qn) (m : MapDataSlab α X) (c : Ctx) (level : Nat) (b : Unit)
+    (hl : level < 2^64) (ha : m.header.slabID.addr = cfg.addr)
+    (hQ : Qs m.elements level c) :
+    MapDataSlab_Set env m c b k (u64 level) (u64 (k.dig level)) (.key k) (.val v) =
+      match o.set cfg m.elements level k v c with
+      | .ok (ks, old, g', c') => some (some (.key ks), old.map .val, none,
+          { m with elements := g', header := { m.header with firstKey := u64 (o.firstKey g'), size := u32 (mei_prefix m + o.size g') } },
+          if m.inlined then c' else c'.emit (.store m.header.slabID))
+      | .error err => some (none, none, some err, m, c) := by
+  have hg := hE.gSet m.elements c level b hl hQ
+  unfold MapDataSlab_Set
+  simp only [MapDataSlab_SlabID, ha, hg]
+  rcases o.set cfg m.elements level k v c with err | ⟨ks, old, g', c'⟩
+  · simp [mei_rGSet]
+  · simp only [mei_rGSet, Option.isNone_none, Bool.not_true, Bool.false_eq_true, if_false, mei_storeSlab_data_on o cfg k v env hE,
+      mei_getPrefixSize, hE.gFirst, hE.gSize, msl_u32_add']
+    cases hi : m.inlined <;> simp [mei_prefix, hi]
 
 /-- `MapDataSlab.Set` on ANY data slab: the nested `elements.Set`, then header maintenance (firstKey, size = prefix +
     elements size), then `storeSlab` unless inlined; next to an error nothing changed -/
@@ -39,13 +74,25 @@ theorem MapDataSlab_Set_eq (hE : EnvB o cfg k v env) (m : MapDataSlab α X) (c :
       | .ok (ks, old, g', c') => some (some (.key ks), old.map .val, none,
           { m with elements := g', header := { m.header with firstKey := u64 (o.firstKey g'), size := u32 (mei_prefix m + o.size g') } },
           if m.inlined then c' else c'.emit (.store m.header.slabID))
+      | .error err => some (none, none, some err, m, c) :=
+  MapDataSlab_Set_eq_on o cfg k v env hE.toOn m c level b hl ha trivial
+
+/-- `MapDataSlab_Remove_eq` over the relativised environment `EnvBOn` -/
+theorem MapDataSlab_Remove_eq_on {Qg Qs Qr : α → Nat → Ctx → Prop} {Qn : Nat → SElem → Prop}
+    (hE : EnvBOn o cfg k v env Qg Qs Qr Qn) (m : MapDataSlab α X) (c : Ctx) (level : Nat) (hl : level < 2^64)
+    (hQ : Qr m.elements level c) :
+    MapDataSlab_Remove env m c k (u64 level) (u64 (k.dig level)) (.key k) =
+      match o.remove cfg m.elements level k c with
+      | .ok (rk, rv, g', c') => some (some (.key rk), some (.val rv), none,
+          { m with elements := g', header := { m.header with firstKey := u64 (o.firstKey g'), size := u32 (mei_prefix m + o.size g') } },
+          if m.inlined then c' else c'.emit (.store m.header.slabID))
       | .error err => some (none, none, some err, m, c) := by
-  have hg := hE.gSet m.elements c level b hl
-  unfold MapDataSlab_Set
-  simp only [MapDataSlab_SlabID, ha, hg]
-  rcases o.set cfg m.elements level k v c with err | ⟨ks, old, g', c'⟩
-  · simp [mei_rGSet]
-  · simp only [mei_rGSet, Option.isNone_none, Bool.not_true, Bool.false_eq_true, if_false, mei_storeSlab_data o cfg k v env hE,
+  have hg := hE.gRemove m.elements c level hl hQ
+  unfold MapDataSlab_Remove
+  simp only [hg]
+  rcases o.remove cfg m.elements level k c with err | ⟨rk, rv, g', c'⟩
+  · simp [mei_rGRemove]
+  · simp only [mei_rGRemove, Option.isNone_none, Bool.not_true, Bool.false_eq_true, if_false, mei_storeSlab_data_on o cfg k v env hE,
       mei_getPrefixSize, hE.gFirst, hE.gSize, msl_u32_add']
     cases hi : m.inlined <;> simp [mei_prefix, hi]
 
@@ -55,15 +102,24 @@ theorem MapDataSlab_Remove_eq (hE : EnvB o cfg k v env) (m : MapDataSlab α X) (
       | .ok (rk, rv, g', c') => some (some (.key rk), some (.val rv), none,
           { m with elements := g', header := { m.header with firstKey := u64 (o.firstKey g'), size := u32 (mei_prefix m + o.size g') } },
           if m.inlined then c' else c'.emit (.store m.header.slabID))
-      | .error err => some (none, none, some err, m, c) := by
-  have hg := hE.gRemove m.elements c level hl
-  unfold MapDataSlab_Remove
-  simp only [hg]
-  rcases o.remove cfg m.elements level k c with err | ⟨rk, rv, g', c'⟩
-  · simp [mei_rGRemove]
-  · simp only [mei_rGRemove, Option.isNone_none, Bool.not_true, Bool.false_eq_true, if_false, mei_storeSlab_data o cfg k v env hE,
-      mei_getPrefixSize, hE.gFirst, hE.gSize, msl_u32_add']
-    cases hi : m.inlined <;> simp [mei_prefix, hi]
+      | .error err => some (none, none, some err, m, c) :=
+  MapDataSlab_Remove_eq_on o cfg k v env hE.toOn m c level hl trivial
+
+/-- `MapDataSlab_Set_groupSlab` over the relativised environment `EnvBOn` -/
+theorem MapDataSlab_Set_groupSlab_on {Qg Qs Qr : α → Nat → Ctx → Prop} {Qn : Nat → SElem → Prop}
+    (hE : EnvBOn o cfg k v env Qg Qs Qr Qn) (s : GroupSlab α) (c : Ctx) (level : Nat) (b : Unit)
+    (hl : level < 2^64) (ha : s.hdr.id.addr = cfg.addr)
+    (hQ : Qs s.elems level c) :
+    MapDataSlab_Set env (mei_cGroupSlab s : MapDataSlab α X) c b k (u64 level) (u64 (k.dig level)) (.key k) (.val v) =
+      match o.set cfg s.elems level k v c with
+      | .ok (ks, old, g', c') => some (some (.key ks), old.map .val, none,
+          mei_cGroupSlab (MElemF.groupSlabUpdate o s g' c').1, (MElemF.groupSlabUpdate o s g' c').2)
+      | .error err => some (none, none, some err, mei_cGroupSlab s, c) := by
+  rw [MapDataSlab_Set_eq_on o cfg k v env hE (mei_cGroupSlab s) c level b hl ha hQ]
+  show (match o.set cfg s.elems level k v c with | .ok (ks, old, g', c') => _ | .error err => _) = _
+  rcases o.set cfg s.elems level k v c with err | ⟨ks, old, g', c'⟩
+  · rfl
+  · rfl
 
 /-- the slab of an external collision group: `MapDataSlab.Set` = the model's `groupSlabUpdate` after the nested set -/
 theorem MapDataSlab_Set_groupSlab (hE : EnvB o cfg k v env) (s : GroupSlab α) (c : Ctx) (level : Nat) (b : Unit)
@@ -72,10 +128,21 @@ theorem MapDataSlab_Set_groupSlab (hE : EnvB o cfg k v env) (s : GroupSlab α) (
       match o.set cfg s.elems level k v c with
       | .ok (ks, old, g', c') => some (some (.key ks), old.map .val, none,
           mei_cGroupSlab (MElemF.groupSlabUpdate o s g' c').1, (MElemF.groupSlabUpdate o s g' c').2)
+      | .error err => some (none, none, some err, mei_cGroupSlab s, c) :=
+  MapDataSlab_Set_groupSlab_on o cfg k v env hE.toOn s c level b hl ha trivial
+
+/-- `MapDataSlab_Remove_groupSlab` over the relativised environment `EnvBOn` -/
+theorem MapDataSlab_Remove_groupSlab_on {Qg Qs Qr : α → Nat → Ctx → Prop} {Qn : Nat → SElem → Prop}
+    (hE : EnvBOn o cfg k v env Qg Qs Qr Qn) (s : GroupSlab α) (c : Ctx) (level : Nat) (hl : level < 2^64)
+    (hQ : Qr s.elems level c) :
+    MapDataSlab_Remove env (mei_cGroupSlab s : MapDataSlab α X) c k (u64 level) (u64 (k.dig level)) (.key k) =
+      match o.remove cfg s.elems level k c with
+      | .ok (rk, rv, g', c') => some (some (.key rk), some (.val rv), none,
+          mei_cGroupSlab (MElemF.groupSlabUpdate o s g' c').1, (MElemF.groupSlabUpdate o s g' c').2)
       | .error err => some (none, none, some err, mei_cGroupSlab s, c) := by
-  rw [MapDataSlab_Set_eq o cfg k v env hE (mei_cGroupSlab s) c level b hl ha]
-  show (match o.set cfg s.elems level k v c with | .ok (ks, old, g', c') => _ | .error err => _) = _
-  rcases o.set cfg s.elems level k v c with err | ⟨ks, old, g', c'⟩
+  rw [MapDataSlab_Remove_eq_on o cfg k v env hE (mei_cGroupSlab s) c level hl hQ]
+  show (match o.remove cfg s.elems level k c with | .ok (rk, rv, g', c') => _ | .error err => _) = _
+  rcases o.remove cfg s.elems level k c with err | ⟨rk, rv, g', c'⟩
   · rfl
   · rfl
 
@@ -85,12 +152,8 @@ theorem MapDataSlab_Remove_groupSlab (hE : EnvB o cfg k v env) (s : GroupSlab α
       match o.remove cfg s.elems level k c with
       | .ok (rk, rv, g', c') => some (some (.key rk), some (.val rv), none,
           mei_cGroupSlab (MElemF.groupSlabUpdate o s g' c').1, (MElemF.groupSlabUpdate o s g' c').2)
-      | .error err => some (none, none, some err, mei_cGroupSlab s, c) := by
-  rw [MapDataSlab_Remove_eq o cfg k v env hE (mei_cGroupSlab s) c level hl]
-  show (match o.remove cfg s.elems level k c with | .ok (rk, rv, g', c') => _ | .error err => _) = _
-  rcases o.remove cfg s.elems level k c with err | ⟨rk, rv, g', c'⟩
-  · rfl
-  · rfl
+      | .error err => some (none, none, some err, mei_cGroupSlab s, c) :=
+  MapDataSlab_Remove_groupSlab_on o cfg k v env hE.toOn s c level hl trivial
 
 end
 
@@ -102,6 +165,27 @@ theorem mei_prefix_cData {r : Nat} {X : Type} (s : MDataSlab r) (x : Option X) (
     mei_prefix (mei_cData s x) = s.prefixSize := by
   simp only [mei_prefix, mei_cData, MDataSlab.prefixSize, hx]
 
+/-- `MapDataSlab_Set_eq_model` over the relativised environment `EnvBOn` -/
+theorem MapDataSlab_Set_eq_model_on {r : Nat} {X : Type} (cfg : MCfg) (k : MKey) (v : Elem)
+    (env : Env (HkeyElems (MElems r)) SV SW X MKey Unit Ctx GE)
+    {Qg Qs Qr : HkeyElems (MElems r) → Nat → Ctx → Prop} {Qn : Nat → SElem → Prop}
+    (hE : EnvBOn (HkeyElems.ops (MElems.ops r)) cfg k v env Qg Qs Qr Qn)
+    (s : MDataSlab r) (x : Option X) (hx : x.isSome = s.root) (c : Ctx) (b : Unit) (ha : s.hdr.id.addr = cfg.addr)
+    (hQ : Qs s.elems 0 c) :
+    MapDataSlab_Set env (mei_cData s x) c b k (u64 0) (u64 (k.dig 0)) (.key k) (.val v) =
+      match MDataSlab.set cfg s k v c with
+      | .ok (ks, old, s', c') => some (some (.key ks), old.map .val, none, mei_cData s' x, c')
+      | .error err => some (none, none, some err, mei_cData s x, c) := by
+  rw [MapDataSlab_Set_eq_on _ cfg k v env hE (mei_cData s x) c 0 b (by decide) ha hQ, mei_prefix_cData s x hx]
+  unfold MDataSlab.set
+  have e : (HkeyElems.ops (MElems.ops r)).set cfg (mei_cData s x).elements 0 k v c =
+      HkeyElems.set (MElems.ops r) cfg s.elems 0 k v c := rfl
+  rw [e]
+  simp only [MDataSlab.eops, bind, Except.bind, pure, Except.pure]
+  rcases HkeyElems.set (MElems.ops r) cfg s.elems 0 k v c with err | ⟨ks, old, g', c'⟩
+  · rfl
+  · rfl
+
 /-- `MapDataSlab.Set` on a data slab of the tree (level 0) = the model's `MDataSlab.set` -/
 theorem MapDataSlab_Set_eq_model {r : Nat} {X : Type} (cfg : MCfg) (k : MKey) (v : Elem)
     (env : Env (HkeyElems (MElems r)) SV SW X MKey Unit Ctx GE) (hE : EnvB (HkeyElems.ops (MElems.ops r)) cfg k v env)
@@ -109,14 +193,27 @@ theorem MapDataSlab_Set_eq_model {r : Nat} {X : Type} (cfg : MCfg) (k : MKey) (v
     MapDataSlab_Set env (mei_cData s x) c b k (u64 0) (u64 (k.dig 0)) (.key k) (.val v) =
       match MDataSlab.set cfg s k v c with
       | .ok (ks, old, s', c') => some (some (.key ks), old.map .val, none, mei_cData s' x, c')
+      | .error err => some (none, none, some err, mei_cData s x, c) :=
+  MapDataSlab_Set_eq_model_on cfg k v env hE.toOn s x hx c b ha trivial
+
+/-- `MapDataSlab_Remove_eq_model` over the relativised environment `EnvBOn` -/
+theorem MapDataSlab_Remove_eq_model_on {r : Nat} {X : Type} (cfg : MCfg) (k : MKey) (v : Elem)
+    (env : Env (HkeyElems (MElems r)) SV SW X MKey Unit Ctx GE)
+    {Qg Qs Qr : HkeyElems (MElems r) → Nat → Ctx → Prop} {Qn : Nat → SElem → Prop}
+    (hE : EnvBOn (HkeyElems.ops (MElems.ops r)) cfg k v env Qg Qs Qr Qn)
+    (s : MDataSlab r) (x : Option X) (hx : x.isSome = s.root) (c : Ctx)
+    (hQ : Qr s.elems 0 c) :
+    MapDataSlab_Remove env (mei_cData s x) c k (u64 0) (u64 (k.dig 0)) (.key k) =
+      match MDataSlab.remove cfg s k c with
+      | .ok (rk, rv, s', c') => some (some (.key rk), some (.val rv), none, mei_cData s' x, c')
       | .error err => some (none, none, some err, mei_cData s x, c) := by
-  rw [MapDataSlab_Set_eq _ cfg k v env hE (mei_cData s x) c 0 b (by decide) ha, mei_prefix_cData s x hx]
-  unfold MDataSlab.set
-  have e : (HkeyElems.ops (MElems.ops r)).set cfg (mei_cData s x).elements 0 k v c =
-      HkeyElems.set (MElems.ops r) cfg s.elems 0 k v c := rfl
+  rw [MapDataSlab_Remove_eq_on _ cfg k v env hE (mei_cData s x) c 0 (by decide) hQ, mei_prefix_cData s x hx]
+  unfold MDataSlab.remove
+  have e : (HkeyElems.ops (MElems.ops r)).remove cfg (mei_cData s x).elements 0 k c =
+      HkeyElems.remove (MElems.ops r) cfg s.elems 0 k c := rfl
   rw [e]
   simp only [MDataSlab.eops, bind, Except.bind, pure, Except.pure]
-  rcases HkeyElems.set (MElems.ops r) cfg s.elems 0 k v c with err | ⟨ks, old, g', c'⟩
+  rcases HkeyElems.remove (MElems.ops r) cfg s.elems 0 k c with err | ⟨rk, rv, g', c'⟩
   · rfl
   · rfl
 
@@ -127,21 +224,30 @@ theorem MapDataSlab_Remove_eq_model {r : Nat} {X : Type} (cfg : MCfg) (k : MKey)
     MapDataSlab_Remove env (mei_cData s x) c k (u64 0) (u64 (k.dig 0)) (.key k) =
       match MDataSlab.remove cfg s k c with
       | .ok (rk, rv, s', c') => some (some (.key rk), some (.val rv), none, mei_cData s' x, c')
-      | .error err => some (none, none, some err, mei_cData s x, c) := by
-  rw [MapDataSlab_Remove_eq _ cfg k v env hE (mei_cData s x) c 0 (by decide), mei_prefix_cData s x hx]
-  unfold MDataSlab.remove
-  have e : (HkeyElems.ops (MElems.ops r)).remove cfg (mei_cData s x).elements 0 k c =
-      HkeyElems.remove (MElems.ops r) cfg s.elems 0 k c := rfl
-  rw [e]
-  simp only [MDataSlab.eops, bind, Except.bind, pure, Except.pure]
-  rcases HkeyElems.remove (MElems.ops r) cfg s.elems 0 k c with err | ⟨rk, rv, g', c'⟩
-  · rfl
-  · rfl
+      | .error err => some (none, none, some err, mei_cData s x, c) :=
+  MapDataSlab_Remove_eq_model_on cfg k v env hE.toOn s x hx c trivial
 
 theorem mei_u64_succ (n : Nat) : u64 n + (1 : UInt64) = u64 (n + 1) := (UInt64.ofNat_add n 1).symm
 
 section
 variable {α X : Type} (o : ElemsOps α) (cfg : MCfg) (k : MKey) (v : Elem) (env : Env α SV SW X MKey Unit Ctx GE)
+
+/-- `externalCollisionGroup_Get_eq_model` over the relativised environment `EnvBOn` -/
+theorem externalCollisionGroup_Get_eq_model_on {Qg Qs Qr : α → Nat → Ctx → Prop} {Qn : Nat → SElem → Prop}
+    (hE : EnvBOn o cfg k v env Qg Qs Qr Qn) (id : SlabID) (sz : Nat) (s : GroupSlab α) (c : Ctx)
+    (level : Nat) (hk : UInt64) (hl : level + 1 < 2^64) (hL : cfg.L < 2^64)
+    (hret : env.SlabStorage_Retrieve c id = (.dataSlab (mei_cGroupSlab s), true, none, c))
+    (hget : ∀ (d : MapDataSlab α X) c dg lvl hk w, env.MapSlab_Get (.dataSlab d) c dg lvl hk w = env.elements_Get d.elements c dg lvl hk w)
+    (hQ : Qg s.elems (level + 1) c) :
+    externalCollisionGroup_Get env { slabID := id, size := u32 sz } c k (u64 level) hk (.key k) =
+      mei_rGet c (MElemF.get o cfg (.ext id sz s) level k) := by
+  unfold externalCollisionGroup_Get
+  simp only [mei_getMapSlab_found_on o cfg k v env hE c id _ hret, Option.isNone_none, Bool.not_true, Bool.false_eq_true,
+    if_false, mei_u64_succ, hE.levels, u64_dgt hl hL, MElemF.get]
+  by_cases h : level + 1 > cfg.L
+  · simp only [h, decide_true, if_true, hE.eHashLevel, mei_rGet]
+  · simp only [h, decide_false, Bool.false_eq_true, if_false, hE.dig k (level + 1) hl, hget, hE.gGet (mei_cGroupSlab s : MapDataSlab α X).elements c (level + 1) hl hQ]
+    rfl
 
 /-- `externalCollisionGroup.Get`; `hret`: the storage returns the group's slab (the model embeds it in the element);
     `hget`: Go's method promotion - `MapDataSlab.Get` IS `elements.Get` of the embedded field -/
@@ -150,14 +256,31 @@ theorem externalCollisionGroup_Get_eq_model (hE : EnvB o cfg k v env) (id : Slab
     (hret : env.SlabStorage_Retrieve c id = (.dataSlab (mei_cGroupSlab s), true, none, c))
     (hget : ∀ (d : MapDataSlab α X) c dg lvl hk w, env.MapSlab_Get (.dataSlab d) c dg lvl hk w = env.elements_Get d.elements c dg lvl hk w) :
     externalCollisionGroup_Get env { slabID := id, size := u32 sz } c k (u64 level) hk (.key k) =
-      mei_rGet c (MElemF.get o cfg (.ext id sz s) level k) := by
-  unfold externalCollisionGroup_Get
-  simp only [mei_getMapSlab_found o cfg k v env hE c id _ hret, Option.isNone_none, Bool.not_true, Bool.false_eq_true,
-    if_false, mei_u64_succ, hE.levels, u64_dgt hl hL, MElemF.get]
+      mei_rGet c (MElemF.get o cfg (.ext id sz s) level k) :=
+  externalCollisionGroup_Get_eq_model_on o cfg k v env hE.toOn id sz s c level hk hl hL hret hget trivial
+/-- `externalCollisionGroup_Set_eq_model` over the relativised environment `EnvBOn` -/
+theorem externalCollisionGroup_Set_eq_model_on {Qg Qs Qr : α → Nat → Ctx → Prop} {Qn : Nat → SElem → Prop}
+    (hE : EnvBOn o cfg k v env Qg Qs Qr Qn) (id : SlabID) (sz : Nat) (s : GroupSlab α) (c : Ctx)
+    (level : Nat) (hk : UInt64) (a : Nat) (b : Unit) (hl : level + 1 < 2^64) (hL : cfg.L < 2^64) (ha : s.hdr.id.addr = cfg.addr)
+    (hret : env.SlabStorage_Retrieve c id = (.dataSlab (mei_cGroupSlab s), true, none, c))
+    (hset : ∀ (d : MapDataSlab α X) c b dg lvl hk w w', env.MapSlab_Set (.dataSlab d) c b dg lvl hk w w' =
+      match MapDataSlab_Set env d c b dg lvl hk w w' with
+      | some r => (r.1, r.2.1, r.2.2.1, .dataSlab r.2.2.2.1, r.2.2.2.2)
+      | none => (none, none, none, .dataSlab d, c))
+    (hQ : Qs s.elems (level + 1) c) :
+    externalCollisionGroup_Set env { slabID := id, size := u32 sz } c a b k (u64 level) hk (.key k) (.val v) =
+      mei_rESet c (MElemF.set o cfg (.ext id sz s) level k v c) := by
+  unfold externalCollisionGroup_Set
+  simp only [mei_getMapSlab_found_on o cfg k v env hE c id _ hret, Option.isNone_none, Bool.not_true, Bool.false_eq_true,
+    if_false, mei_u64_succ, hE.levels, u64_dgt hl hL, MElemF.set]
   by_cases h : level + 1 > cfg.L
-  · simp only [h, decide_true, if_true, hE.eHashLevel, mei_rGet]
-  · simp only [h, decide_false, Bool.false_eq_true, if_false, hE.dig k (level + 1) hl, hget, hE.gGet _ c (level + 1) hl]
-    rfl
+  · simp only [h, decide_true, if_true, hE.eHashLevel, mei_rESet, bind, Except.bind, throw, throwThe, MonadExceptOf.throw]
+  · simp only [h, decide_false, Bool.false_eq_true, if_false, hE.dig k (level + 1) hl, hset,
+      MapDataSlab_Set_groupSlab_on o cfg k v env hE s c (level + 1) b hl ha hQ, bind, Except.bind, pure, Except.pure]
+    rcases o.set cfg s.elems (level + 1) k v c with err | ⟨ks, old, g', c'⟩
+    · rfl
+    · rfl
+
 /-- `externalCollisionGroup.Set`; `hset`: dynamic dispatch of `MapSlab.Set` on a data slab is the translated `MapDataSlab.Set` -/
 theorem externalCollisionGroup_Set_eq_model (hE : EnvB o cfg k v env) (id : SlabID) (sz : Nat) (s : GroupSlab α) (c : Ctx)
     (level : Nat) (hk : UInt64) (a : Nat) (b : Unit) (hl : level + 1 < 2^64) (hL : cfg.L < 2^64) (ha : s.hdr.id.addr = cfg.addr)
@@ -167,25 +290,15 @@ theorem externalCollisionGroup_Set_eq_model (hE : EnvB o cfg k v env) (id : Slab
       | some r => (r.1, r.2.1, r.2.2.1, .dataSlab r.2.2.2.1, r.2.2.2.2)
       | none => (none, none, none, .dataSlab d, c)) :
     externalCollisionGroup_Set env { slabID := id, size := u32 sz } c a b k (u64 level) hk (.key k) (.val v) =
-      mei_rESet c (MElemF.set o cfg (.ext id sz s) level k v c) := by
-  unfold externalCollisionGroup_Set
-  simp only [mei_getMapSlab_found o cfg k v env hE c id _ hret, Option.isNone_none, Bool.not_true, Bool.false_eq_true,
-    if_false, mei_u64_succ, hE.levels, u64_dgt hl hL, MElemF.set]
-  by_cases h : level + 1 > cfg.L
-  · simp only [h, decide_true, if_true, hE.eHashLevel, mei_rESet, bind, Except.bind, throw, throwThe, MonadExceptOf.throw]
-  · simp only [h, decide_false, Bool.false_eq_true, if_false, hE.dig k (level + 1) hl, hset,
-      MapDataSlab_Set_groupSlab o cfg k v env hE s c (level + 1) b hl ha, bind, Except.bind, pure, Except.pure]
-    rcases o.set cfg s.elems (level + 1) k v c with err | ⟨ks, old, g', c'⟩
-    · rfl
-    · rfl
-/-- `externalCollisionGroup.Remove` (fully translated: Retrieve, type test, `MapDataSlab.Remove`, collapse to the sole single
-    element with removal of the external slab).  `hcnt` (the count of the group AFTER the removal fits `uint32`) is asked of
-    the result of the nested remove only: `∀ g', o.count g' < 2^32` would be unsatisfiable for the model's list-based
-    `SingleElems.ops` / `HkeyElems.ops` (lists of any length exist), i.e. the theorem would be vacuous for them. -/
-theorem externalCollisionGroup_Remove_eq_model (hE : EnvB o cfg k v env) (id : SlabID) (sz : Nat) (s : GroupSlab α) (c : Ctx)
+      mei_rESet c (MElemF.set o cfg (.ext id sz s) level k v c) :=
+  externalCollisionGroup_Set_eq_model_on o cfg k v env hE.toOn id sz s c level hk a b hl hL ha hret hset trivial
+/-- `externalCollisionGroup_Remove_eq_model` over the relativised environment `EnvBOn` -/
+theorem externalCollisionGroup_Remove_eq_model_on {Qg Qs Qr : α → Nat → Ctx → Prop} {Qn : Nat → SElem → Prop}
+    (hE : EnvBOn o cfg k v env Qg Qs Qr Qn) (id : SlabID) (sz : Nat) (s : GroupSlab α) (c : Ctx)
     (level : Nat) (hk : UInt64) (hl : level + 1 < 2^64) (hL : cfg.L < 2^64)
     (hcnt : ∀ rk rv g' c', o.remove cfg s.elems (level + 1) k c = .ok (rk, rv, g', c') → o.count g' < 2^32)
-    (hret : env.SlabStorage_Retrieve c id = (.dataSlab (mei_cGroupSlab s), true, none, c)) :
+    (hret : env.SlabStorage_Retrieve c id = (.dataSlab (mei_cGroupSlab s), true, none, c))
+    (hQ : Qr s.elems (level + 1) c) :
     externalCollisionGroup_Remove env { slabID := id, size := u32 sz } c k (u64 level) hk (.key k) =
       some (mei_rERemove c (MElemF.remove o cfg (.ext id sz s) level k c)) := by
   unfold externalCollisionGroup_Remove
@@ -194,7 +307,7 @@ theorem externalCollisionGroup_Remove_eq_model (hE : EnvB o cfg k v env) (id : S
   by_cases h : level + 1 > cfg.L
   · simp only [h, decide_true, if_true, hE.eHashLevel, mei_rERemove, bind, Except.bind, throw, throwThe, MonadExceptOf.throw]
   · simp only [h, decide_false, Bool.false_eq_true, if_false, hE.dig k (level + 1) hl,
-      MapDataSlab_Remove_groupSlab o cfg k v env hE s c (level + 1) hl, bind, Except.bind, pure, Except.pure]
+      MapDataSlab_Remove_groupSlab_on o cfg k v env hE s c (level + 1) hl hQ, bind, Except.bind, pure, Except.pure]
     rcases hrm : o.remove cfg s.elems (level + 1) k c with err | ⟨rk, rv, g', c'⟩
     · rfl
     · have h1 : (1 : UInt32) = u32 1 := rfl
@@ -206,6 +319,18 @@ theorem externalCollisionGroup_Remove_eq_model (hE : EnvB o cfg k v env) (id : S
         cases el <;> rfl
       · simp only [hc, decide_false, Bool.false_eq_true, if_false, (hE.gSole g').2 hc]
         rfl
+
+/-- `externalCollisionGroup.Remove` (fully translated: Retrieve, type test, `MapDataSlab.Remove`, collapse to the sole single
+    element with removal of the external slab).  `hcnt` (the count of the group AFTER the removal fits `uint32`) is asked of
+    the result of the nested remove only: `∀ g', o.count g' < 2^32` would be unsatisfiable for the model's list-based
+    `SingleElems.ops` / `HkeyElems.ops` (lists of any length exist), i.e. the theorem would be vacuous for them. -/
+theorem externalCollisionGroup_Remove_eq_model (hE : EnvB o cfg k v env) (id : SlabID) (sz : Nat) (s : GroupSlab α) (c : Ctx)
+    (level : Nat) (hk : UInt64) (hl : level + 1 < 2^64) (hL : cfg.L < 2^64)
+    (hcnt : ∀ rk rv g' c', o.remove cfg s.elems (level + 1) k c = .ok (rk, rv, g', c') → o.count g' < 2^32)
+    (hret : env.SlabStorage_Retrieve c id = (.dataSlab (mei_cGroupSlab s), true, none, c)) :
+    externalCollisionGroup_Remove env { slabID := id, size := u32 sz } c k (u64 level) hk (.key k) =
+      some (mei_rERemove c (MElemF.remove o cfg (.ext id sz s) level k c)) :=
+  externalCollisionGroup_Remove_eq_model_on o cfg k v env hE.toOn id sz s c level hk hl hL hcnt hret trivial
 end
 
 /-! ## non-vacuity: a concrete environment satisfying `EnvB`, `hret`, `hget`, `hset`, and the theorems at work on it -/
